@@ -221,10 +221,11 @@ Section RankProofs.
         assert (R <> []) by discriminate.
         destruct (exists_nd T cmp P dom_trans dom_irrefl R HP H) as [z [Hz Hnd]].
         assert (In z (filter (nd R) R)) by (apply filter_In; auto).
-        destruct (filter (nd R) R); [contradiction|]. simpl in S. Show. lia. }
-      destruct (IH R' (S r) HP' Hinj' Hlt) as [rest Hrest].
+        destruct (filter (nd R) R); [contradiction|]. simpl in S, Hlen. lia. }
+      assert (Hc' : forall f, incl f R' -> crowd f <> None).
       { intros f Hf. apply Hc. intros y Hy. apply Hincl. now apply Hf. }
-      rewrite Hrest. eauto.
+      destruct (IH R' (Datatypes.S r) HP' Hinj' Hlt Hc') as [rest Hrest].
+      rewrite Hrest. eexists. reflexivity.
   Qed.
 
   (* ---- rank_of reads the front index ---- *)
@@ -348,7 +349,7 @@ Section RankProofs.
       intro Hx. split; [now apply rank_succ_only_if|].
       intros [Hall [y [Hy [Hd Hry]]]].
       destruct (rank_total x Hx) as [k [Hk _]]. destruct k as [|k].
-      - exfalso. apply (rank_zero_iff x Hx) in Hk. rewrite (Hk y Hy) in Hd. discriminate.
+      - exfalso. pose proof (proj1 (rank_zero_iff x Hx) Hk) as Hk0. rewrite (Hk0 y Hy) in Hd. discriminate.
       - destruct (rank_succ_only_if x k Hx Hk) as [Hall' [y' [Hy' [Hd' Hry']]]].
         destruct (Hall' y Hy Hd) as [j [Hj Hjk]]. rewrite Hry in Hj. injection Hj as <-.
         destruct (Hall y' Hy' Hd') as [j' [Hj' Hjr]]. rewrite Hry' in Hj'. injection Hj' as <-.
@@ -360,9 +361,935 @@ Section RankProofs.
       rank x = Some rx -> rank y = Some ry -> (ry < rx)%nat.
     Proof.
       intros Hx Hy Hd Hrx Hry. destruct rx as [|rx].
-      - apply (rank_zero_iff x Hx) in Hrx. rewrite (Hrx y Hy) in Hd. discriminate.
+      - pose proof (proj1 (rank_zero_iff x Hx) Hrx) as Hk0. rewrite (Hk0 y Hy) in Hd. discriminate.
       - destruct (rank_succ_only_if x rx Hx Hrx) as [Hall _].
         destruct (Hall y Hy Hd) as [j [Hj Hle]]. rewrite Hry in Hj. injection Hj as <-. lia.
     Qed.
   End Sorted.
 End RankProofs.
+
+(* ====================================================================== *)
+(* Part 2: crowding distance (carrier xq, exact rational arithmetic)       *)
+(* ====================================================================== *)
+Open Scope nat_scope.
+
+(* ---------- the strict weak order on xq and on objective keys ---------- *)
+Lemma xltb_sw : StrictWeak xltb.
+Proof.
+  split.
+  - apply (ol_irrefl _ _ _ xq_laws).
+  - apply (ol_trans _ _ _ xq_laws).
+  - apply (ol_cotrans _ _ _ xq_laws).
+Qed.
+
+Lemma obj_lt_sw i : StrictWeak (obj_lt i).
+Proof. apply (StrictWeak_key xltb (obj_at i)), xltb_sw. Qed.
+
+Lemma xeqb_refl x : xeqb x x = true.
+Proof. unfold xeqb. now rewrite (ol_irrefl _ _ _ xq_laws). Qed.
+
+Lemma tuple_eqb_refl t : tuple_eqb t t = true.
+Proof. induction t as [|x t IH]; simpl; [reflexivity|]. now rewrite xeqb_refl, IH. Qed.
+
+(* ---------- unique ---------- *)
+Lemma unique_aux_incl : forall l seen x, In x (unique_aux seen l) -> In x l.
+Proof.
+  induction l as [|s r IH]; intros seen x H; simpl in *; [assumption|].
+  destruct (existsb (tuple_eqb (s_objs s)) seen).
+  - right. eapply IH; eauto.
+  - destruct H as [<-|H]; [now left|right; eapply IH; eauto].
+Qed.
+
+Lemma unique_incl l : incl (unique l) l.
+Proof. intros x. apply unique_aux_incl. Qed.
+
+Lemma unique_aux_not_seen : forall l seen x, In x (unique_aux seen l) ->
+  existsb (tuple_eqb (s_objs x)) seen = false.
+Proof.
+  induction l as [|s r IH]; intros seen x H; simpl in *; [contradiction|].
+  destruct (existsb (tuple_eqb (s_objs s)) seen) eqn:E.
+  - eapply IH; eauto.
+  - destruct H as [<-|H]; [assumption|].
+    apply IH in H. simpl in H. apply orb_false_iff in H. tauto.
+Qed.
+
+(* later members of unique's output differ (as objective tuples) from earlier ones *)
+Lemma unique_aux_distinct : forall l seen,
+  ForallOrdPairs (fun a b => tuple_eqb (s_objs b) (s_objs a) = false) (unique_aux seen l).
+Proof.
+  induction l as [|s r IH]; intro seen; simpl; [constructor|].
+  destruct (existsb (tuple_eqb (s_objs s)) seen).
+  - apply IH.
+  - constructor; [|apply IH].
+    apply Forall_forall. intros b Hb. apply unique_aux_not_seen in Hb.
+    simpl in Hb. apply orb_false_iff in Hb. tauto.
+Qed.
+
+Lemma unique_NoDup_sid l : sid_inj l -> NoDup (map sid (unique l)).
+Proof.
+  intro Hinj. unfold unique.
+  pose proof (unique_aux_distinct l []) as D.
+  assert (Hin : forall x, In x (unique_aux [] l) -> In x l) by apply unique_aux_incl.
+  induction D as [|a r Ha D IH]; simpl; constructor.
+  - intro H. apply in_map_iff in H. destruct H as [b [E Hb]].
+    assert (b = a) by (apply Hinj; [apply Hin; now right|apply Hin; now left|assumption]).
+    subst b. rewrite Forall_forall in Ha. pose proof (Ha a Hb) as F. rewrite tuple_eqb_refl in F. discriminate.
+  - apply IH. intros x Hx. apply Hin. now right.
+Qed.
+
+(* every member of l is represented in unique l by a member with an equal objective tuple *)
+Lemma unique_aux_repr : forall l seen x, In x l ->
+  existsb (tuple_eqb (s_objs x)) seen = true \/
+  exists y, In y (unique_aux seen l) /\ tuple_eqb (s_objs x) (s_objs y) = true.
+Proof.
+  induction l as [|s r IH]; intros seen x Hx; [contradiction|]. simpl.
+  destruct Hx as [<-|Hx].
+  - destruct (existsb (tuple_eqb (s_objs s)) seen) eqn:E; [now left|].
+    right. exists s. split; [now left|apply tuple_eqb_refl].
+  - destruct (existsb (tuple_eqb (s_objs s)) seen) eqn:E.
+    + destruct (IH seen x Hx) as [H|[y [Hy Ey]]]; [now left|right; eauto].
+    + destruct (IH (s_objs s :: seen) x Hx) as [H|[y [Hy Ey]]].
+      * simpl in H. apply orb_true_iff in H. destruct H as [H|H]; [|now left].
+        right. exists s. split; [now left|assumption].
+      * right. exists y. split; [now right|assumption].
+Qed.
+
+Lemma unique_repr l x : In x l -> exists y, In y (unique l) /\ tuple_eqb (s_objs x) (s_objs y) = true.
+Proof. intro Hx. destruct (unique_aux_repr l [] x Hx) as [H|H]; [discriminate|assumption]. Qed.
+
+(* ---------- stores ---------- *)
+Lemma cget_cset st i v j : cget (cset st i v) j = if Nat.eqb i j then Some v else cget st j.
+Proof. reflexivity. Qed.
+
+Lemma cadd_spec st i v st' : cadd st i v = Some st' ->
+  exists w z, cget st i = Some w /\ xadd w v = Some z /\
+              forall j, cget st' j = if Nat.eqb i j then Some z else cget st j.
+Proof.
+  unfold cadd. destruct (cget st i) as [w|]; [|discriminate].
+  destruct (xadd w v) as [z|] eqn:E; [|discriminate]. intro H. injection H as <-.
+  exists w, z. repeat split; auto.
+Qed.
+
+Lemma fold_cset_get (v : xq) : forall (l : list xsol) st j,
+  cget (fold_left (fun st s => cset st (sid s) v) l st) j =
+  if has_sid j l then Some v else cget st j.
+Proof.
+  induction l as [|s r IH]; intros st j; simpl; [reflexivity|].
+  rewrite IH, cget_cset. destruct (has_sid j r); simpl; [now rewrite orb_true_r|].
+  rewrite orb_false_r. reflexivity.
+Qed.
+
+(* total addition used to state results (xadd never fails on the values that occur) *)
+Definition xplus (a b : xq) : xq := match xadd a b with Some z => z | None => PInf end.
+Definition not_ninf (a : xq) : Prop := a <> NInf.
+
+Lemma xadd_ok a b : not_ninf a -> not_ninf b -> xadd a b = Some (xplus a b) /\ not_ninf (xplus a b).
+Proof. unfold not_ninf, xplus. destruct a, b; simpl; intros; split; congruence. Qed.
+
+Lemma xplus_pinf_r a : not_ninf a -> xplus a PInf = PInf.
+Proof. unfold not_ninf, xplus. destruct a; simpl; congruence. Qed.
+
+Lemma xplus_pinf_l b : not_ninf b -> xplus PInf b = PInf.
+Proof. unfold not_ninf, xplus. destruct b; simpl; congruence. Qed.
+
+(* ---------- the interior loop ---------- *)
+(* (previous, next) neighbours of the interior element with identity j *)
+Fixpoint window_of (w : list xsol) (j : nat) : option (xsol * xsol) :=
+  match w with
+  | p :: tl =>
+      match tl with
+      | c :: n :: _ => if Nat.eqb (sid c) j then Some (p, n) else window_of tl j
+      | _ => None
+      end
+  | [] => None
+  end.
+
+Lemma window_of_center : forall w j p n, window_of w j = Some (p, n) ->
+  exists l1 c l2, w = l1 ++ p :: c :: n :: l2 /\ sid c = j.
+Proof.
+  induction w as [|a tl IH]; intros j p n H; [discriminate|].
+  destruct tl as [|c [|n' r]]; try discriminate.
+  cbn [window_of] in H. destruct (Nat.eqb (sid c) j) eqn:E.
+  - injection H as <- <-. exists [], c, r. split; [reflexivity|now apply Nat.eqb_eq].
+  - destruct (IH j p n H) as [l1 [c' [l2 [Ew Ec]]]]. exists (a :: l1), c', l2. split; [|assumption].
+    simpl. now rewrite Ew.
+Qed.
+
+Lemma window_of_tail_sid w j p n a : window_of (a :: w) j = Some (p, n) -> has_sid j w = true.
+Proof.
+  intro H. destruct (window_of_center _ _ _ _ H) as [l1 [c [l2 [Ew Ec]]]].
+  apply has_sid_In. exists c. split; [|assumption].
+  destruct l1 as [|b l1]; simpl in Ew; injection Ew as _ ->; [now left|].
+  apply in_or_app. right. right. now left.
+Qed.
+
+(* meaning of window_of: the neighbours in any decomposition around x *)
+Lemma window_of_app : forall l1 p x n l2, NoDup (map sid (l1 ++ p :: x :: n :: l2)) ->
+  window_of (l1 ++ p :: x :: n :: l2) (sid x) = Some (p, n).
+Proof.
+  induction l1 as [|a l1 IH]; intros p x n l2 Hnd.
+  - simpl. now rewrite Nat.eqb_refl.
+  - simpl app. simpl in Hnd. inversion Hnd as [|s m Hnot Hnd']; subst.
+    destruct l1 as [|b l1].
+    + simpl. simpl in Hnd'. destruct (Nat.eqb (sid p) (sid x)) eqn:E.
+      * exfalso. apply Nat.eqb_eq in E. inversion Hnd' as [|s m Hn _]; subst. apply Hn. simpl. now left.
+      * simpl in IH. specialize (IH p x n l2 Hnd'). simpl in IH. exact IH.
+    + specialize (IH p x n l2 Hnd').
+      change (window_of (a :: (b :: l1) ++ p :: x :: n :: l2) (sid x))
+        with (window_of (a :: b :: (l1 ++ p :: x :: n :: l2)) (sid x)).
+      destruct (l1 ++ p :: x :: n :: l2) as [|c r] eqn:El; [destruct l1; discriminate|].
+      cbn [window_of]. destruct (Nat.eqb (sid b) (sid x)) eqn:E.
+      * exfalso. apply Nat.eqb_eq in E. simpl in Hnd'. inversion Hnd' as [|s m Hn _]; subst. apply Hn.
+        rewrite E. change (sid x :: map sid (n :: l2)) with (map sid (x :: n :: l2)).
+        rewrite <- El || idtac. rewrite map_app. apply in_or_app. right. simpl. right. now left.
+      * simpl app in IH. rewrite El in IH. exact IH.
+Qed.
+
+Section Pass.
+  Variable i : nat.
+  Variable mn mx : Q.
+
+  (* the value written on the interior element with neighbours (p, n), given its old value w0 *)
+  Definition interior_value (p n : xsol) : option xq :=
+    if Qltb (mx - mn) EPSILON then Some PInf
+    else match fin (obj_at i n), fin (obj_at i p) with
+         | Some b, Some a => Some (Fin ((b - a) / (mx - mn)))
+         | _, _ => None
+         end.
+
+  Lemma interior_step_spec p c n st st' : crowd_interior_step i mn mx p c n st = Some st' ->
+    (forall j, Nat.eqb (sid c) j = false -> cget st' j = cget st j) /\
+    exists v, interior_value p n = Some v /\
+      ((v = PInf /\ cget st' (sid c) = Some PInf) \/
+       (exists w z, cget st (sid c) = Some w /\ xadd w v = Some z /\ cget st' (sid c) = Some z)).
+  Proof.
+    unfold crowd_interior_step, interior_value. destruct (Qltb (mx - mn) EPSILON).
+    - intro H. injection H as <-. split.
+      + intros j Hj. now rewrite cget_cset, Hj.
+      + exists PInf. split; [reflexivity|]. left. split; [reflexivity|]. now rewrite cget_cset, Nat.eqb_refl.
+    - destruct (fin (obj_at i n)) as [b|]; [|discriminate]. destruct (fin (obj_at i p)) as [a|]; [|discriminate].
+      intro H. destruct (cadd_spec _ _ _ _ H) as [w [z [Hw [Hz Hg]]]]. split.
+      + intros j Hj. now rewrite Hg, Hj.
+      + eexists. split; [reflexivity|]. right. exists w, z. repeat split; auto. now rewrite Hg, Nat.eqb_refl.
+  Qed.
+
+  Lemma crowd_interior_cons3 p c n r st :
+    crowd_interior i mn mx (p :: c :: n :: r) st =
+    match crowd_interior_step i mn mx p c n st with
+    | None => None
+    | Some st1 => crowd_interior i mn mx (c :: n :: r) st1
+    end.
+  Proof. reflexivity. Qed.
+
+  Lemma window_of_cons3 p c n r j :
+    window_of (p :: c :: n :: r) j = if Nat.eqb (sid c) j then Some (p, n) else window_of (c :: n :: r) j.
+  Proof. reflexivity. Qed.
+
+  Lemma interior_spec : forall w st st', NoDup (map sid w) -> crowd_interior i mn mx w st = Some st' ->
+    forall j,
+      match window_of w j with
+      | None => cget st' j = cget st j
+      | Some (p, n) =>
+          exists v, interior_value p n = Some v /\
+            ((v = PInf /\ cget st' j = Some PInf) \/
+             (exists w0 z, cget st j = Some w0 /\ xadd w0 v = Some z /\ cget st' j = Some z))
+      end.
+  Proof.
+    induction w as [|p tl IH]; intros st st' Hnd H j; [simpl in *; now injection H as <-|].
+    destruct tl as [|c [|n r]]; try (simpl in *; now injection H as <-).
+    rewrite crowd_interior_cons3 in H. rewrite window_of_cons3.
+    destruct (crowd_interior_step i mn mx p c n st) as [st1|] eqn:E1; [|discriminate].
+    destruct (interior_step_spec _ _ _ _ _ E1) as [Hother [v [Hv Hc]]].
+    assert (Hnd' : NoDup (map sid (c :: n :: r))) by (simpl in Hnd; now inversion Hnd).
+    specialize (IH st1 st' Hnd' H j).
+    destruct (Nat.eqb (sid c) j) eqn:Ecj.
+    - apply Nat.eqb_eq in Ecj. subst j.
+      assert (Hw : window_of (c :: n :: r) (sid c) = None).
+      { destruct (window_of (c :: n :: r) (sid c)) as [[a b]|] eqn:W; [|reflexivity]. exfalso.
+        apply window_of_tail_sid in W. apply has_sid_In in W. destruct W as [y [Hy Ey]].
+        assert (Hn : ~ In (sid c) (map sid (n :: r))) by (simpl in Hnd'; now inversion Hnd').
+        apply Hn. rewrite <- Ey. apply in_map. exact Hy. }
+      rewrite Hw in IH. exists v. split; [assumption|]. rewrite IH. exact Hc.
+    - rewrite (Hother j Ecj) in IH. exact IH.
+  Qed.
+End Pass.
+
+(* ---------- one objective ---------- *)
+(* what objective i adds to the crowding distance of the member of u with identity j *)
+Definition contrib (i : nat) (u : list xsol) (j : nat) : option xq :=
+  let srt := sort_by_obj i u in
+  match srt with
+  | [] => None
+  | first :: _ =>
+      let lst := last srt first in
+      match fin (obj_at i first), fin (obj_at i lst) with
+      | Some mn, Some mx =>
+          if Nat.eqb (sid first) j || Nat.eqb (sid lst) j then Some PInf
+          else match window_of srt j with
+               | Some (p, n) => interior_value i mn mx p n
+               | None => None
+               end
+      | _, _ => None
+      end
+  end.
+
+Lemma last_in_tail {A} (a b : A) l d : In (last (a :: b :: l) d) (b :: l).
+Proof.
+  revert a b. induction l as [|c l IH]; intros a b; [now left|].
+  change (last (a :: b :: c :: l) d) with (last (b :: c :: l) d). right. apply IH.
+Qed.
+
+Lemma last_default {A} (l : list A) d d' : l <> [] -> last l d = last l d'.
+Proof.
+  induction l as [|a r IH]; intro Hne; [congruence|].
+  destruct r as [|b r]; [reflexivity|].
+  change (last (a :: b :: r) d) with (last (b :: r) d). change (last (a :: b :: r) d') with (last (b :: r) d').
+  apply IH. discriminate.
+Qed.
+
+Lemma last_app_ne {A} (l1 l2 : list A) d : l2 <> [] -> last (l1 ++ l2) d = last l2 d.
+Proof.
+  intro Hne. induction l1 as [|a l1 IH]; [reflexivity|].
+  simpl app. destruct (l1 ++ l2) eqn:E.
+  - destruct l1; [simpl in E; congruence|discriminate].
+  - change (last (a :: a0 :: l) d) with (last (a0 :: l) d). exact IH.
+Qed.
+
+Lemma NoDup_app_r {A} (l1 l2 : list A) : NoDup (l1 ++ l2) -> NoDup l2.
+Proof. induction l1 as [|a l1 IH]; [auto|]. simpl. intro H. inversion H; auto. Qed.
+
+Lemma window_of_last_none w d : NoDup (map sid w) -> window_of w (sid (last w d)) = None.
+Proof.
+  intro Hnd. destruct (window_of w (sid (last w d))) as [[p n]|] eqn:W; [|reflexivity]. exfalso.
+  destruct (window_of_center _ _ _ _ W) as [l1 [c [l2 [Ew Ec]]]]. subst w.
+  rewrite last_app_ne in Ec by discriminate.
+  pose proof (last_in_tail p c (n :: l2) d) as Hin.
+  change (last (p :: c :: n :: l2) d) with (last (c :: n :: l2) d) in Hin.
+  pose proof (last_in_tail c n l2 d) as Hin2.
+  rewrite map_app in Hnd. apply NoDup_app_r in Hnd. simpl in Hnd.
+  inversion Hnd as [|s m _ Hnd1]; subst. inversion Hnd1 as [|s m Hn _]; subst.
+  apply Hn. rewrite Ec. change (sid n :: map sid l2) with (map sid (n :: l2)). now apply in_map.
+Qed.
+
+Lemma window_of_head_none a w : NoDup (map sid (a :: w)) -> window_of (a :: w) (sid a) = None.
+Proof.
+  intro Hnd. destruct (window_of (a :: w) (sid a)) as [[p n]|] eqn:W; [|reflexivity]. exfalso.
+  apply window_of_tail_sid in W. apply has_sid_In in W. destruct W as [y [Hy Ey]].
+  simpl in Hnd. inversion Hnd as [|s m Hn _]; subst. apply Hn. rewrite <- Ey. now apply in_map.
+Qed.
+
+Lemma window_of_absent w j : has_sid j w = false -> window_of w j = None.
+Proof.
+  intro H. destruct (window_of w j) as [[p n]|] eqn:W; [|reflexivity]. exfalso.
+  destruct (window_of_center _ _ _ _ W) as [l1 [c [l2 [Ew Ec]]]]. subst w.
+  assert (has_sid j (l1 ++ p :: c :: n :: l2) = true).
+  { apply has_sid_In. exists c. split; [|assumption]. apply in_or_app. right. right. now left. }
+  congruence.
+Qed.
+
+Lemma interior_decompose (w : list xsol) x d : In x w -> w <> [] ->
+  sid x <> sid (hd d w) -> sid x <> sid (last w d) ->
+  exists l1 p n l2, w = l1 ++ p :: x :: n :: l2.
+Proof.
+  intros Hx Hne Hh Hl. destruct (in_split _ _ Hx) as [a [b E]]. subst w.
+  destruct a as [|a0 a] using rev_ind; [simpl in Hh; congruence|]. clear IHa.
+  destruct b as [|n b].
+  - exfalso. apply Hl. now rewrite last_app_ne by discriminate.
+  - exists a, a0, n, b. now rewrite <- app_assoc.
+Qed.
+
+Lemma has_sid_perm j (l l' : list xsol) : Permutation l l' -> has_sid j l = has_sid j l'.
+Proof. apply existsb_perm. Qed.
+
+Lemma crowd_pass_spec i u st st' :
+  NoDup (map sid u) -> 3 <= length u ->
+  (forall x, In x u -> exists w, cget st (sid x) = Some w /\ not_ninf w) ->
+  crowd_pass i u st = Some st' ->
+  (forall x, In x u -> exists w c, cget st (sid x) = Some w /\ not_ninf w /\
+       contrib i u (sid x) = Some c /\ not_ninf c /\ cget st' (sid x) = Some (xplus w c))
+  /\ (forall j, has_sid j u = false -> cget st' j = cget st j).
+Proof.
+  intros Hnd Hlen Hbound H.
+  unfold crowd_pass in H. unfold contrib.
+  pose proof (ssort_perm _ (obj_lt i) u) as HP. fold (sort_by_obj i u) in HP.
+  set (srt := sort_by_obj i u) in *.
+  assert (Hnds : NoDup (map sid srt)).
+  { eapply Permutation_NoDup; [apply Permutation_sym, Permutation_map, HP|assumption]. }
+  assert (Hlens : length srt = length u) by now apply Permutation_length.
+  destruct srt as [|first rest] eqn:Esrt; [simpl in Hlens; lia|].
+  set (lst := last (first :: rest) first) in *.
+  destruct (fin (obj_at i first)) as [mn|]; [|discriminate].
+  destruct (fin (obj_at i lst)) as [mx|]; [|discriminate].
+  destruct (cadd st (sid first) PInf) as [st1|] eqn:E1; [|discriminate].
+  destruct (cadd st1 (sid lst) PInf) as [st2|] eqn:E2; [|discriminate].
+  destruct (cadd_spec _ _ _ _ E1) as [wf [zf [Hwf [Hzf G1]]]].
+  destruct (cadd_spec _ _ _ _ E2) as [wl [zl [Hwl [Hzl G2]]]].
+  pose proof (interior_spec i mn mx _ _ _ Hnds H) as HI.
+  assert (Hfl : Nat.eqb (sid first) (sid lst) = false).
+  { apply Nat.eqb_neq. intro E. destruct rest as [|b rest]; [simpl in Hlens; lia|].
+    pose proof (last_in_tail first b rest first) as Hin. fold lst in Hin.
+    simpl in Hnds. inversion Hnds as [|s m Hn _]; subst. apply Hn. rewrite E.
+    change (sid b :: map sid rest) with (map sid (b :: rest)). now apply in_map. }
+  assert (Hinsrt : forall x, In x u <-> In x (first :: rest)).
+  { intro x. split; apply Permutation_in; [now apply Permutation_sym|assumption]. }
+  split.
+  - intros x Hx. destruct (Hbound x Hx) as [w [Hw Hwn]].
+    exists w. destruct (Nat.eqb (sid first) (sid x)) eqn:Ef; [|destruct (Nat.eqb (sid lst) (sid x)) eqn:El].
+    + (* x is the first of the sorted order *)
+      exists PInf. simpl. apply Nat.eqb_eq in Ef. repeat split; auto; try discriminate.
+      pose proof (HI (sid first)) as HIf. pose proof (window_of_head_none first rest Hnds) as W0. unfold xsol in *. rewrite W0 in HIf.
+      rewrite <- Ef in *. rewrite HIf, G2. rewrite (Nat.eqb_sym (sid lst) (sid first)), Hfl, G1, Nat.eqb_refl.
+      rewrite Hw in Hwf. injection Hwf as <-.
+      destruct (xadd_ok w PInf Hwn ltac:(discriminate)) as [A _]. rewrite A in Hzf. now injection Hzf as <-.
+    + (* x is the last *)
+      exists PInf. simpl. apply Nat.eqb_eq in El. repeat split; auto; try discriminate.
+      pose proof (HI (sid lst)) as HIl.
+      pose proof (window_of_last_none _ first Hnds) as W0. change (window_of (first :: rest) (sid lst) = None) in W0. unfold xsol in *. rewrite W0 in HIl.
+      rewrite <- El in *. rewrite HIl, G2, Nat.eqb_refl.
+      rewrite G1, Hfl, Hw in Hwl. injection Hwl as <-.
+      destruct (xadd_ok w PInf Hwn ltac:(discriminate)) as [A _]. rewrite A in Hzl. now injection Hzl as <-.
+    + (* x is interior *)
+      cbn [orb].
+      assert (Hdec : exists l1 p n l2, first :: rest = l1 ++ p :: x :: n :: l2).
+      { apply (interior_decompose _ x first); [now apply Hinsrt|discriminate| |].
+        - simpl. apply Nat.eqb_neq in Ef. congruence.
+        - fold lst. apply Nat.eqb_neq in El. congruence. }
+      destruct Hdec as [l1 [p [n [l2 Edec]]]].
+      assert (Hwin : window_of (first :: rest) (sid x) = Some (p, n)).
+      { rewrite Edec. apply window_of_app. now rewrite <- Edec. }
+      specialize (HI (sid x)). unfold xsol in *. rewrite Hwin in HI. rewrite Hwin.
+      destruct HI as [v [Hv [[-> Hg]|[w0 [z [Hw0 [Hz Hg]]]]]]].
+      * exists PInf. repeat split; auto; try discriminate. now rewrite Hg, (xplus_pinf_r w Hwn).
+      * rewrite G2, El, G1, Ef, Hw in Hw0. injection Hw0 as <-.
+        assert (Hvn : not_ninf v).
+        { unfold interior_value in Hv. destruct (Qltb (mx - mn) EPSILON); [injection Hv as <-; discriminate|].
+          destruct (fin (obj_at i n)); [|discriminate]. destruct (fin (obj_at i p)); [|discriminate].
+          injection Hv as <-. discriminate. }
+        exists v. repeat split; auto.
+        destruct (xadd_ok w v Hwn Hvn) as [A _]. rewrite A in Hz. injection Hz as <-. exact Hg.
+  - intros j Hj.
+    assert (Hjs : has_sid j (first :: rest) = false) by (rewrite <- Hj; apply has_sid_perm; assumption).
+    specialize (HI j). rewrite (window_of_absent _ _ Hjs) in HI. rewrite HI, G2, G1.
+    assert (Nat.eqb (sid first) j = false).
+    { destruct (Nat.eqb (sid first) j) eqn:E; [|reflexivity]. apply Nat.eqb_eq in E.
+      assert (has_sid j (first :: rest) = true) by (apply has_sid_In; exists first; split; [now left|assumption]). congruence. }
+    assert (Nat.eqb (sid lst) j = false).
+    { destruct (Nat.eqb (sid lst) j) eqn:E; [|reflexivity]. apply Nat.eqb_eq in E.
+      assert (has_sid j (first :: rest) = true).
+      { apply has_sid_In. exists lst. split; [|assumption]. unfold lst.
+        destruct rest as [|b rest']; [now left|]. right. apply last_in_tail. }
+      congruence. }
+    now rewrite H0, H1.
+Qed.
+
+(* ---------- all objectives ---------- *)
+Lemma crowd_passes_spec : forall is u st st',
+  NoDup (map sid u) -> 3 <= length u ->
+  (forall x, In x u -> exists w, cget st (sid x) = Some w /\ not_ninf w) ->
+  crowd_passes is u st = Some st' ->
+  (forall x, In x u -> exists w cs, cget st (sid x) = Some w /\
+       Forall2 (fun i c => contrib i u (sid x) = Some c) is cs /\ Forall not_ninf cs /\
+       not_ninf (fold_left xplus cs w) /\ cget st' (sid x) = Some (fold_left xplus cs w))
+  /\ (forall j, has_sid j u = false -> cget st' j = cget st j).
+Proof.
+  induction is as [|i is IH]; intros u st st' Hnd Hlen Hb H.
+  - simpl in H. injection H as <-. split; [|reflexivity].
+    intros x Hx. destruct (Hb x Hx) as [w [Hw Hn]]. exists w, []. repeat split; auto.
+  - simpl in H. destruct (crowd_pass i u st) as [st1|] eqn:E1; [|discriminate].
+    destruct (crowd_pass_spec i u st st1 Hnd Hlen Hb E1) as [A B].
+    assert (Hb1 : forall x, In x u -> exists w, cget st1 (sid x) = Some w /\ not_ninf w).
+    { intros x Hx. destruct (A x Hx) as [w [c [Hw [Hwn [_ [Hcn Hg]]]]]].
+      exists (xplus w c). split; [assumption|]. exact (proj2 (xadd_ok w c Hwn Hcn)). }
+    destruct (IH u st1 st' Hnd Hlen Hb1 H) as [A' B']. split.
+    + intros x Hx. destruct (A x Hx) as [w [c [Hw [Hwn [Hc [Hcn Hg]]]]]].
+      destruct (A' x Hx) as [w1 [cs [Hw1 [F2 [Fn [Hnn Hg']]]]]].
+      rewrite Hg in Hw1. injection Hw1 as <-.
+      exists w, (c :: cs). repeat split; auto.
+    + intros j Hj. now rewrite (B' j Hj), (B j Hj).
+Qed.
+
+Lemma fold_xplus_from_pinf : forall cs, Forall not_ninf cs -> fold_left xplus cs PInf = PInf.
+Proof.
+  induction cs as [|d cs IH]; intro Hf; [reflexivity|].
+  inversion Hf; subst. simpl. rewrite xplus_pinf_l by assumption. now apply IH.
+Qed.
+
+Lemma fold_xplus_pinf : forall cs a, Forall not_ninf cs -> not_ninf a -> In PInf cs -> fold_left xplus cs a = PInf.
+Proof.
+  induction cs as [|c cs IH]; intros a Hf Ha Hin; [contradiction|].
+  inversion Hf as [|c' cs' Hc Hcs]; subst. simpl. destruct Hin as [->|Hin].
+  - rewrite (xplus_pinf_r a Ha). now apply fold_xplus_from_pinf.
+  - apply IH; auto. exact (proj2 (xadd_ok a c Ha Hc)).
+Qed.
+
+Lemma fold_xplus_fin (q : nat -> Q) : forall is a,
+  fold_left xplus (map (fun i => Fin (q i)) is) (Fin a) = Fin (fold_left Qplus (map q is) a).
+Proof. induction is as [|i is IH]; intro a; [reflexivity|]. simpl. apply IH. Qed.
+
+Lemma Forall2_nth {A B} (R : A -> B -> Prop) : forall l cs i a,
+  Forall2 R l cs -> nth_error l i = Some a -> exists c, nth_error cs i = Some c /\ R a c.
+Proof.
+  induction l as [|x l IH]; intros cs i a F H; [destruct i; discriminate|].
+  inversion F as [|x' c l' cs' Hxc F']; subst. destruct i; simpl in *.
+  - injection H as <-. eauto.
+  - eapply IH; eauto.
+Qed.
+
+Lemma Forall2_map_eq {A B} (R : A -> B -> Prop) (f : A -> B) l cs :
+  Forall2 R l cs -> (forall a c, In a l -> R a c -> c = f a) -> cs = map f l.
+Proof.
+  intro F. induction F as [|a c l cs Hac F IH]; intro H; [reflexivity|]. simpl. f_equal.
+  - apply H; [now left|assumption].
+  - apply IH. intros a' c' Hin. apply H. now right.
+Qed.
+
+Lemma nth_error_seq n i : i < n -> nth_error (seq 0 n) i = Some i.
+Proof.
+  intro H. rewrite (nth_error_nth' (seq 0 n) 0) by (rewrite seq_length; lia).
+  now rewrite seq_nth.
+Qed.
+
+Lemma EPSILON_pos : (0 < EPSILON)%Q.
+Proof. reflexivity. Qed.
+
+Lemma StronglySorted_app_r {A} (R : A -> A -> Prop) l1 l2 : StronglySorted R (l1 ++ l2) -> StronglySorted R l2.
+Proof. induction l1 as [|a l1 IH]; [auto|]. simpl. intro H. inversion H; auto. Qed.
+
+Definition xnonneg (v : xq) : Prop := xltb v xzero = false.
+
+Lemma xplus_nonneg a b : xnonneg a -> xnonneg b -> xnonneg (xplus a b).
+Proof.
+  unfold xnonneg, xplus. destruct a as [|x|], b as [|y|]; simpl; try congruence; try reflexivity.
+  rewrite !Qltb_false. intros. lra.
+Qed.
+
+Lemma xnonneg_not_ninf a : xnonneg a -> not_ninf a.
+Proof. unfold xnonneg, not_ninf. destruct a; simpl; congruence. Qed.
+
+Lemma contrib_nonneg i u j c : contrib i u j = Some c -> xnonneg c.
+Proof.
+  unfold contrib. set (srt := sort_by_obj i u).
+  assert (Hs : StronglySorted (le_rel (obj_lt i)) srt) by apply (ssort_sorted _ _ (obj_lt_sw i)).
+  destruct srt as [|first rest] eqn:E; [discriminate|].
+  destruct (fin (obj_at i first)) as [mn|]; [|discriminate].
+  destruct (fin (obj_at i (last (first :: rest) first))) as [mx|]; [|discriminate].
+  destruct (_ || _); [intro H; injection H as <-; reflexivity|].
+  destruct (window_of (first :: rest) j) as [[p n]|] eqn:W; [|discriminate].
+  unfold interior_value. destruct (Qltb (mx - mn) EPSILON) eqn:Ed; [intro H; injection H as <-; reflexivity|].
+  destruct (fin (obj_at i n)) as [b|] eqn:Fb; [|discriminate].
+  destruct (fin (obj_at i p)) as [a|] eqn:Fa; [|discriminate].
+  intro H. injection H as <-. unfold xnonneg. simpl. apply Qltb_false.
+  destruct (window_of_center _ _ _ _ W) as [l1 [c0 [l2 [Ew _]]]]. rewrite Ew in Hs.
+  apply StronglySorted_app_r in Hs. inversion Hs as [|p' r' _ Hall]; subst.
+  assert (Hpn : le_rel (obj_lt i) p n).
+  { rewrite Forall_forall in Hall. apply Hall. right. now left. }
+  unfold le_rel, obj_lt in Hpn.
+  destruct (obj_at i n) as [|bn|]; try discriminate. destruct (obj_at i p) as [|ap|]; try discriminate.
+  simpl in Fb, Fa. injection Fb as ->. injection Fa as ->. simpl in Hpn. apply Qltb_false in Hpn.
+  apply Qltb_false in Ed. pose proof EPSILON_pos.
+  unfold Qdiv. apply Qmult_le_0_compat; [lra|]. apply Qinv_le_0_compat. lra.
+Qed.
+
+Lemma fold_xplus_nonneg : forall cs a, Forall xnonneg cs -> xnonneg a -> xnonneg (fold_left xplus cs a).
+Proof.
+  induction cs as [|c cs IH]; intros a Hf Ha; [assumption|]. inversion Hf; subst. simpl.
+  apply IH; auto. now apply xplus_nonneg.
+Qed.
+
+(* ---------- crowding_distance(front) ---------- *)
+Section Crowding.
+  Variable nobjs : nat.
+  Variable front : list xsol.
+  Variable st : cstore.
+  Hypothesis Hinj : sid_inj front.
+  Hypothesis Hrun : crowding nobjs front = Some st.
+
+  Notation u := (unique front).
+  Notation st0 := (fold_left (fun st s => cset st (sid s) xzero) front []).
+
+  Lemma st0_get j : cget st0 j = if has_sid j front then Some xzero else None.
+  Proof. apply fold_cset_get. Qed.
+
+  Lemma u_NoDup : NoDup (map sid u).
+  Proof. now apply unique_NoDup_sid. Qed.
+
+  Lemma st0_bound x : In x u -> exists w, cget st0 (sid x) = Some w /\ not_ninf w.
+  Proof.
+    intro Hx. exists xzero. split; [|discriminate]. rewrite st0_get.
+    assert (has_sid (sid x) front = true) by (apply has_sid_In; exists x; split; [now apply unique_incl|reflexivity]).
+    now rewrite H.
+  Qed.
+
+  Lemma crowding_cases :
+    (length u < 3 /\ st = fold_left (fun st s => cset st (sid s) PInf) u st0) \/
+    (3 <= length u /\ crowd_passes (seq 0 nobjs) u st0 = Some st).
+  Proof.
+    unfold crowding in Hrun. destruct (Nat.ltb (length u) 3) eqn:E.
+    - left. apply Nat.ltb_lt in E. split; [assumption|]. now injection Hrun as <-.
+    - right. apply Nat.ltb_ge in E. split; [assumption|].
+      match type of Hrun with (if ?b then _ else _) = _ => destruct b end; [assumption|discriminate].
+  Qed.
+
+  (* members whose objective vector repeats an earlier member's keep 0.0 *)
+  Theorem crowding_dups_zero x : In x front -> has_sid (sid x) u = false -> cget st (sid x) = Some xzero.
+  Proof.
+    intros Hx Hu.
+    assert (Hf : has_sid (sid x) front = true) by (apply has_sid_In; now exists x).
+    destruct crowding_cases as [[_ ->]|[Hlen Hp]].
+    - now rewrite fold_cset_get, Hu, st0_get, Hf.
+    - destruct (crowd_passes_spec _ _ _ _ u_NoDup Hlen st0_bound Hp) as [_ B].
+      now rewrite (B _ Hu), st0_get, Hf.
+  Qed.
+
+  (* fewer than three distinct objective vectors: all of them get +inf *)
+  Theorem crowding_small x : length u < 3 -> In x u -> cget st (sid x) = Some PInf.
+  Proof.
+    intros Hlen Hx. destruct crowding_cases as [[_ ->]|[Hlen' _]]; [|lia].
+    rewrite fold_cset_get.
+    assert (has_sid (sid x) u = true) by (apply has_sid_In; now exists x). now rewrite H.
+  Qed.
+
+  (* otherwise: the sum over the objectives of the per-objective contributions *)
+  Theorem crowding_sum x : 3 <= length u -> In x u ->
+    exists cs, Forall2 (fun i c => contrib i u (sid x) = Some c) (seq 0 nobjs) cs /\
+               Forall not_ninf cs /\ cget st (sid x) = Some (fold_left xplus cs xzero).
+  Proof.
+    intros Hlen Hx. destruct crowding_cases as [[Hlen' _]|[_ Hp]]; [lia|].
+    destruct (crowd_passes_spec _ _ _ _ u_NoDup Hlen st0_bound Hp) as [A _].
+    destruct (A x Hx) as [w [cs [Hw [F2 [Fn [_ Hg]]]]]].
+    destruct (st0_bound x Hx) as [w' [Hw' _]]. rewrite st0_get in Hw, Hw'.
+    destruct (has_sid (sid x) front); [|discriminate]. injection Hw as <-.
+    exists cs. auto.
+  Qed.
+
+  (* the first and the last of the stable order of every objective get +inf *)
+  Theorem crowding_extremes i x d : 3 <= length u -> i < nobjs ->
+    x = hd d (sort_by_obj i u) \/ x = last (sort_by_obj i u) d -> cget st (sid x) = Some PInf.
+  Proof.
+    intros Hlen Hi Hext.
+    assert (Hne : sort_by_obj i u <> []).
+    { intro E. pose proof (ssort_length _ (obj_lt i) u) as L. unfold sort_by_obj in E. rewrite E in L. simpl in L. lia. }
+    assert (Hx : In x u).
+    { apply (ssort_In _ (obj_lt i)). fold (sort_by_obj i u). destruct (sort_by_obj i u) as [|a r] eqn:E; [congruence|].
+      destruct Hext as [->| ->]; [now left|]. destruct r as [|b r]; [now left|]. right. apply last_in_tail. }
+    destruct (crowding_sum x Hlen Hx) as [cs [F2 [Fn Hg]]].
+    destruct (Forall2_nth _ _ _ i i F2 (nth_error_seq nobjs i Hi)) as [c [Hc Hcon]].
+    assert (c = PInf).
+    { unfold contrib in Hcon. destruct (sort_by_obj i u) as [|a r] eqn:E; [congruence|].
+      destruct (fin (obj_at i a)); [|discriminate]. destruct (fin (obj_at i (last (a :: r) a))); [|discriminate].
+      assert (Nat.eqb (sid a) (sid x) || Nat.eqb (sid (last (a :: r) a)) (sid x) = true).
+      { destruct Hext as [->| ->]; simpl hd.
+        - now rewrite Nat.eqb_refl.
+        - assert (H : last (a :: r) d = last (a :: r) a) by (apply last_default; discriminate).
+          rewrite H, Nat.eqb_refl. apply orb_true_r. }
+      rewrite H in Hcon. now injection Hcon as <-. }
+    subst c. rewrite Hg. f_equal. apply fold_xplus_pinf; auto; [discriminate|].
+    eapply nth_error_In; eauto.
+  Qed.
+
+  (* a member that is interior for every objective, all ranges non-degenerate:
+     the sum over the objectives of (next - prev) / (max - min) *)
+  Theorem crowding_interior x (q : nat -> Q) : 3 <= length u -> In x u ->
+    (forall i, i < nobjs -> contrib i u (sid x) = Some (Fin (q i))) ->
+    cget st (sid x) = Some (Fin (fold_left Qplus (map q (seq 0 nobjs)) 0%Q)).
+  Proof.
+    intros Hlen Hx Hq. destruct (crowding_sum x Hlen Hx) as [cs [F2 [_ Hg]]].
+    assert (cs = map (fun i => Fin (q i)) (seq 0 nobjs)).
+    { apply (Forall2_map_eq _ (fun i => Fin (q i)) _ _ F2). intros i c Hi Hc. apply in_seq in Hi.
+      rewrite (Hq i) in Hc by lia. now injection Hc as <-. }
+    subst cs. rewrite Hg. f_equal. apply (fold_xplus_fin q (seq 0 nobjs) 0%Q).
+  Qed.
+
+  Theorem crowding_binds x : In x front -> exists v, cget st (sid x) = Some v.
+  Proof.
+    intro Hx. destruct (has_sid (sid x) u) eqn:Hu.
+    - apply has_sid_In in Hu. destruct Hu as [y [Hy Ey]].
+      assert (y = x) by (apply Hinj; auto; now apply unique_incl). subst y.
+      destruct (Nat.lt_ge_cases (length u) 3) as [Hs|Hb].
+      + eexists. now apply crowding_small.
+      + destruct (crowding_sum x Hb Hy) as [cs [_ [_ Hg]]]. eauto.
+    - eexists. now apply crowding_dups_zero.
+  Qed.
+
+  Theorem crowding_nonneg x v : In x front -> cget st (sid x) = Some v -> xnonneg v.
+  Proof.
+    intros Hx Hv. destruct (has_sid (sid x) u) eqn:Hu.
+    - apply has_sid_In in Hu. destruct Hu as [y [Hy Ey]].
+      assert (y = x) by (apply Hinj; auto; now apply unique_incl). subst y.
+      destruct (Nat.lt_ge_cases (length u) 3) as [Hs|Hb].
+      + rewrite (crowding_small x Hs Hy) in Hv. injection Hv as <-. reflexivity.
+      + destruct (crowding_sum x Hb Hy) as [cs [F2 [_ Hg]]]. rewrite Hg in Hv. injection Hv as <-.
+        apply fold_xplus_nonneg; [|unfold xnonneg; simpl; now apply Qltb_false].
+        clear Hg. induction F2 as [|i c is cs' Hic _ IH]; constructor; [eapply contrib_nonneg; eauto|assumption].
+    - rewrite (crowding_dups_zero x Hx Hu) in Hv. injection Hv as <-. unfold xnonneg. simpl. now apply Qltb_false.
+  Qed.
+End Crowding.
+
+(* what [contrib] is for an interior member: neighbours' gap over the range, or +inf when the range is below EPSILON *)
+Lemma contrib_interior i u l1 p x n l2 mn mx a b :
+  NoDup (map sid u) -> sort_by_obj i u = l1 ++ p :: x :: n :: l2 ->
+  fin (obj_at i (hd x (sort_by_obj i u))) = Some mn ->
+  fin (obj_at i (last (sort_by_obj i u) x)) = Some mx ->
+  fin (obj_at i p) = Some a -> fin (obj_at i n) = Some b ->
+  contrib i u (sid x) = Some (if Qltb (mx - mn) EPSILON then PInf else Fin ((b - a) / (mx - mn))).
+Proof.
+  intros Hnd Es Hmn Hmx Ha Hb. unfold contrib.
+  assert (Hnds : NoDup (map sid (sort_by_obj i u))).
+  { eapply Permutation_NoDup; [apply Permutation_sym, Permutation_map, (ssort_perm _ (obj_lt i) u)|assumption]. }
+  destruct (sort_by_obj i u) as [|first rest] eqn:E; [destruct l1; discriminate|].
+  simpl hd in Hmn.
+  assert (Hl : last (first :: rest) x = last (first :: rest) first) by (apply last_default; discriminate).
+  rewrite Hl in Hmx. rewrite Hmn, Hmx.
+  assert (Hf : Nat.eqb (sid first) (sid x) = false).
+  { apply Nat.eqb_neq. intro Eq. rewrite Es in Hnds. destruct l1 as [|f0 l1]; simpl in Es; injection Es as -> Er.
+    - simpl in Hnds. inversion Hnds as [|s m Hn _]; subst. apply Hn. rewrite Eq. now left.
+    - simpl in Hnds. inversion Hnds as [|s m Hn _]; subst. apply Hn. rewrite Eq, map_app. apply in_or_app. right. right. now left. }
+  assert (Hla : Nat.eqb (sid (last (first :: rest) first)) (sid x) = false).
+  { apply Nat.eqb_neq. intro Eq. rewrite Es in Eq, Hnds.
+    rewrite (last_app_ne l1 (p :: x :: n :: l2)) in Eq by discriminate.
+    change (last (p :: x :: n :: l2) first) with (last (n :: l2) first) in Eq.
+    rewrite map_app in Hnds. apply NoDup_app_r in Hnds. simpl in Hnds.
+    inversion Hnds as [|s m _ Hnd1]; subst. inversion Hnd1 as [|s m Hn _]; subst.
+    apply Hn. rewrite <- Eq. change (sid n :: map sid l2) with (map sid (n :: l2)). apply in_map.
+    destruct l2 as [|c l2]; [now left|]. right. apply last_in_tail. }
+  rewrite Hf, Hla. cbn [orb].
+  assert (W : window_of (first :: rest) (sid x) = Some (p, n)).
+  { unfold xsol in *. rewrite Es. apply window_of_app. unfold xsol in *. now rewrite <- Es. }
+  unfold xsol in *. rewrite W. unfold interior_value. rewrite Hb, Ha.
+  destruct (Qltb (mx - mn) EPSILON); reflexivity.
+Qed.
+
+(* ====================================================================== *)
+(* Part 3: the executable sort x_nd_sort = ranks (Part 1 at the Pareto     *)
+(* instance) + crowding per front (Part 2)                                 *)
+(* ====================================================================== *)
+Lemma crowding_unbound nobjs front st j : sid_inj front -> crowding nobjs front = Some st ->
+  has_sid j front = false -> cget st j = None.
+Proof.
+  intros Hinj Hrun Hj.
+  assert (Hu : has_sid j (unique front) = false).
+  { destruct (has_sid j (unique front)) eqn:E; [|reflexivity]. apply has_sid_In in E. destruct E as [y [Hy Ey]].
+    assert (has_sid j front = true) by (apply has_sid_In; exists y; split; [now apply unique_incl|assumption]). congruence. }
+  destruct (crowding_cases nobjs front st Hrun) as [[_ ->]|[Hlen Hp]].
+  - now rewrite fold_cset_get, Hu, fold_cset_get, Hj.
+  - destruct (crowd_passes_spec _ _ _ _ (u_NoDup front Hinj) Hlen (st0_bound front) Hp) as [_ B].
+    now rewrite (B _ Hu), fold_cset_get, Hj.
+Qed.
+
+Lemma crowd_of_none : forall (log : list (nat * list xsol * cstore)) i,
+  (forall e, In e log -> cget (snd e) i = None) -> crowd_of log i = None.
+Proof.
+  induction log as [|[[r f] cs] rest IH]; intros i H; [reflexivity|]. simpl.
+  rewrite IH by (intros e He; apply H; now right). apply (H (r, f, cs)). now left.
+Qed.
+
+Lemma crowd_of_at : forall (log : list (nat * list xsol * cstore)) k r f cs i v,
+  nth_error log k = Some (r, f, cs) -> cget cs i = Some v ->
+  (forall j e, k < j -> nth_error log j = Some e -> cget (snd e) i = None) ->
+  crowd_of log i = Some v.
+Proof.
+  induction log as [|[[r0 f0] cs0] rest IH]; intros k r f cs i v Hk Hv Hlater; [destruct k; discriminate|].
+  destruct k; simpl in Hk.
+  - injection Hk as -> -> ->. simpl. rewrite crowd_of_none; [assumption|].
+    intros e He. destruct (In_nth_error _ _ He) as [j Hj]. apply (Hlater (S j) e); [lia|exact Hj].
+  - simpl. rewrite (IH k r f cs i v Hk Hv); [reflexivity|].
+    intros j e Hj He. apply (Hlater (S j) e); [lia|exact He].
+Qed.
+
+Lemma loop_crowd {V CR} (cmp : sol V -> sol V -> Z) (crowd : list (sol V) -> option CR) :
+  forall fuel R r log, nd_loop cmp crowd fuel R r = Some log ->
+  Forall (fun e => crowd (snd (fst e)) = Some (snd e)) log.
+Proof.
+  induction fuel as [|fuel IH]; intros R r log H.
+  - destruct R; simpl in H; [injection H as <-; constructor|discriminate].
+  - destruct R as [|a R0]; [simpl in H; injection H as <-; constructor|].
+    cbn [nd_loop] in H.
+    destruct (crowd (archive (sol V) cmp (a :: R0))) as [cr|] eqn:Ec; [|discriminate].
+    match type of H with match ?t with _ => _ end = _ => destruct t as [rest|] eqn:E; [|discriminate] end.
+    injection H as <-. constructor; [exact Ec|]. eapply IH; eauto.
+Qed.
+
+Lemma annotate_spec : forall log l ann, annotate log l = Some ann ->
+  Forall2 (fun x a => a_sol a = x /\ rank_of log (sid x) = Some (a_rank a) /\
+                      crowd_of log (sid x) = Some (a_crowd a)) l ann.
+Proof.
+  induction l as [|x l IH]; intros ann H; simpl in H.
+  - injection H as <-. constructor.
+  - destruct (rank_of log (sid x)) as [rk|] eqn:Er; [|discriminate].
+    destruct (crowd_of log (sid x)) as [cd|] eqn:Ec; [|discriminate].
+    destruct (annotate log l) as [r'|]; [|discriminate]. injection H as <-.
+    constructor; [simpl; auto|]. now apply IH.
+Qed.
+
+Lemma Forall2_In_l {A B} (R : A -> B -> Prop) l m x : Forall2 R l m -> In x l -> exists y, In y m /\ R x y.
+Proof.
+  intro F. induction F as [|a b l m Hab F IH]; intro H; [contradiction|]. destruct H as [<-|H].
+  - exists b. split; [now left|assumption].
+  - destruct (IH H) as [y [Hy Hr]]. exists y. split; [now right|assumption].
+Qed.
+
+Lemma Forall2_In_r {A B} (R : A -> B -> Prop) l m y : Forall2 R l m -> In y m -> exists x, In x l /\ R x y.
+Proof.
+  intro F. induction F as [|a b l m Hab F IH]; intro H; [contradiction|]. destruct H as [<-|H].
+  - exists a. split; [now left|assumption].
+  - destruct (IH H) as [x [Hx Hr]]. exists x. split; [now right|assumption].
+Qed.
+
+Section XSort.
+  Variable c : bool.
+  Variable dirs : list bool.
+  Variable l : list xsol.
+  Variable ann : list asol.
+  Notation wfs := (sol_wf xq xltb xzero dirs).
+  Notation xdom := (dom xsol (x_sol_cmp c dirs)).
+  Hypothesis Hwf : Forall wfs l.
+  Hypothesis Hinj : sid_inj l.
+  Hypothesis Hsort : x_nd_sort c dirs l = Some ann.
+
+  Let R1 := scmp_range xq xltb xneg xzero xq_laws c dirs.
+  Let R2 := scmp_antisym xq xltb xneg xzero xq_laws c dirs.
+  Let R3 := sdom_trans xq xltb xneg xzero xq_laws c dirs.
+  Let R4 := sdom_irrefl xq xltb xneg xzero xq_laws c dirs.
+
+  Lemma xsort_log : exists log, x_nd_sort_log c dirs l = Some log /\ annotate log l = Some ann.
+  Proof.
+    unfold x_nd_sort in Hsort. destruct (x_nd_sort_log c dirs l) as [log|]; [|discriminate]. eauto.
+  Qed.
+
+  Lemma ann_sols : map a_sol ann = l.
+  Proof.
+    destruct xsort_log as [log [_ Ha]]. pose proof (annotate_spec _ _ _ Ha) as F.
+    clear - F. induction F as [|x a l ann [E _] F IH]; [reflexivity|]. simpl. now rewrite E, IH.
+  Qed.
+
+  Lemma ann_In a : In a ann -> In (a_sol a) l.
+  Proof. intro H. rewrite <- ann_sols. now apply in_map. Qed.
+
+  Lemma ann_rank log a : x_nd_sort_log c dirs l = Some log -> annotate log l = Some ann -> In a ann ->
+    rank_of log (sid (a_sol a)) = Some (a_rank a) /\ crowd_of log (sid (a_sol a)) = Some (a_crowd a).
+  Proof.
+    intros _ Ha Hin. destruct (Forall2_In_r _ _ _ _ (annotate_spec _ _ _ Ha) Hin) as [x [_ [E [Hr Hc]]]].
+    subst x. auto.
+  Qed.
+
+  Lemma ann_of x : In x l -> exists a, In a ann /\ a_sol a = x.
+  Proof.
+    intro H. destruct xsort_log as [log [_ Ha]].
+    destruct (Forall2_In_l _ _ _ _ (annotate_spec _ _ _ Ha) H) as [a [Hin [E _]]]. eauto.
+  Qed.
+
+  (* rank 0 = exactly the members no member dominates *)
+  Theorem x_rank_zero_iff a : In a ann ->
+    (a_rank a = 0 <-> forall b, In b ann -> xdom (a_sol b) (a_sol a) = false).
+  Proof.
+    intro Ha. destruct xsort_log as [log [Hl Han]].
+    destruct (ann_rank log a Hl Han Ha) as [Hr _].
+    pose proof (rank_zero_iff xq (x_sol_cmp c dirs) wfs cstore (crowding (length dirs)) R1 R2 R3 R4
+                  l log Hwf Hinj Hl (a_sol a) (ann_In a Ha)) as Z.
+    unfold rank in Z. rewrite Hr in Z. split.
+    - intros E b Hb. apply Z; [now rewrite E|now apply ann_In].
+    - intro H. assert (Some (a_rank a) = Some 0); [|congruence]. apply Z.
+      intros y Hy. destruct (ann_of y Hy) as [b [Hb <-]]. now apply H.
+  Qed.
+
+  (* rank r+1 = exactly the members whose dominators all have rank <= r, one of them rank r *)
+  Theorem x_rank_depth a r : In a ann ->
+    (a_rank a = S r <->
+     (forall b, In b ann -> xdom (a_sol b) (a_sol a) = true -> a_rank b <= r) /\
+     (exists b, In b ann /\ xdom (a_sol b) (a_sol a) = true /\ a_rank b = r)).
+  Proof.
+    intro Ha. destruct xsort_log as [log [Hl Han]].
+    destruct (ann_rank log a Hl Han Ha) as [Hr _].
+    pose proof (rank_depth xq (x_sol_cmp c dirs) wfs cstore (crowding (length dirs)) R1 R2 R3 R4
+                  l log Hwf Hinj Hl (a_sol a) r (ann_In a Ha)) as Z.
+    unfold rank in Z. rewrite Hr in Z. split.
+    - intro E. assert (E' : Some (a_rank a) = Some (S r)) by now rewrite E. apply Z in E'.
+      destruct E' as [Hall [y [Hy [Hd Hry]]]]. split.
+      + intros b Hb Hdb. destruct (Hall (a_sol b) (ann_In b Hb) Hdb) as [j [Hj Hle]].
+        destruct (ann_rank log b Hl Han Hb) as [Hrb _]. rewrite Hrb in Hj. injection Hj as <-. exact Hle.
+      + destruct (ann_of y Hy) as [b [Hb Eb]]. exists b. subst y. repeat split; auto.
+        destruct (ann_rank log b Hl Han Hb) as [Hrb _]. rewrite Hrb in Hry. now injection Hry.
+    - intros [Hall [b [Hb [Hd Hrb]]]]. assert (Some (a_rank a) = Some (S r)); [|congruence]. apply Z. split.
+      + intros y Hy Hdy. destruct (ann_of y Hy) as [b' [Hb' Eb']]. subst y.
+        exists (a_rank b'). split; [apply (ann_rank log b' Hl Han Hb')|now apply Hall].
+      + exists (a_sol b). repeat split; [now apply ann_In|assumption|].
+        destruct (ann_rank log b Hl Han Hb) as [Hrb' _]. now rewrite Hrb', Hrb.
+  Qed.
+
+  (* the ranks in use are 0 .. m-1, each occupied, with m <= len(population) *)
+  Theorem x_ranks_contiguous : exists m, m <= length l /\
+    (forall a, In a ann -> a_rank a < m) /\
+    (forall j, j < m -> filter (fun a => Nat.eqb (a_rank a) j) ann <> []).
+  Proof.
+    destruct xsort_log as [log [Hl Han]]. exists (length log).
+    destruct (rounds_bounded xq (x_sol_cmp c dirs) wfs cstore (crowding (length dirs)) R1 R2 R3 R4 l log Hwf Hinj Hl) as [Hb Hne].
+    split; [exact Hb|]. split.
+    - intros a Ha. destruct (ann_rank log a Hl Han Ha) as [Hr _].
+      apply (rank_front xq (x_sol_cmp c dirs) wfs cstore (crowding (length dirs)) R1 R2 R3 R4 l log Hwf Hinj Hl _ _ (ann_In a Ha)) in Hr.
+      destruct (Nat.lt_ge_cases (a_rank a) (length log)) as [|G]; [assumption|]. exfalso.
+      rewrite nth_overflow in Hr; [contradiction|]. unfold fronts_of. now rewrite map_length.
+    - intros j Hj.
+      assert (Hf : nth j (fronts_of xq cstore log) [] <> []).
+      { rewrite Forall_forall in Hne. apply Hne. apply nth_In. unfold fronts_of. now rewrite map_length. }
+      destruct (nth j (fronts_of xq cstore log) []) as [|x f] eqn:E; [congruence|].
+      assert (Hx : In x (nth j (fronts_of xq cstore log) [])) by (rewrite E; now left).
+      destruct (loop_layering xq (x_sol_cmp c dirs) wfs cstore (crowding (length dirs)) R1 R2 R3 R4 _ _ _ _ Hl Hwf Hinj) as [L _].
+      assert (HxL : In x l) by (apply (layering_cover xq (x_sol_cmp c dirs) cstore (crowding (length dirs)) _ _ L); eauto).
+      destruct (ann_of x HxL) as [a [Ha Ea]]. subst x.
+      apply (rank_front xq (x_sol_cmp c dirs) wfs cstore (crowding (length dirs)) R1 R2 R3 R4 l log Hwf Hinj Hl _ _ HxL) in Hx.
+      destruct (ann_rank log a Hl Han Ha) as [Hr _]. unfold rank in Hx. rewrite Hr in Hx. injection Hx as Hx.
+      intro C. assert (In a (filter (fun a => Nat.eqb (a_rank a) j) ann)) by (apply filter_In; split; [assumption|now apply Nat.eqb_eq]).
+      rewrite C in H. contradiction.
+  Qed.
+
+  (* the crowding attribute of a member is what crowding_distance computed for its own front *)
+  Theorem x_crowd_front a : In a ann -> exists front cs,
+    In (a_sol a) front /\ sid_inj front /\
+    (forall b, In b ann -> (In (a_sol b) front <-> a_rank b = a_rank a)) /\
+    (forall x, In x front -> In x l) /\
+    crowding (length dirs) front = Some cs /\ cget cs (sid (a_sol a)) = Some (a_crowd a).
+  Proof.
+    intro Ha. destruct xsort_log as [log [Hl Han]].
+    destruct (ann_rank log a Hl Han Ha) as [Hr Hc].
+    pose proof (rank_front xq (x_sol_cmp c dirs) wfs cstore (crowding (length dirs)) R1 R2 R3 R4 l log Hwf Hinj Hl) as RF.
+    destruct (loop_layering xq (x_sol_cmp c dirs) wfs cstore (crowding (length dirs)) R1 R2 R3 R4 _ _ _ _ Hl Hwf Hinj) as [L _].
+    pose proof (layering_cover xq (x_sol_cmp c dirs) cstore (crowding (length dirs)) _ _ L) as LCov.
+    pose proof (layering_disjoint xq (x_sol_cmp c dirs) cstore (crowding (length dirs)) _ _ L) as LDis.
+    pose proof (proj1 (RF _ _ (ann_In a Ha)) Hr) as Hin.
+    set (k := a_rank a) in *. set (front := nth k (fronts_of xq cstore log) []) in *.
+    assert (Hk : k < length log).
+    { destruct (Nat.lt_ge_cases k (length log)) as [|G]; [assumption|]. exfalso. unfold front in Hin.
+      rewrite nth_overflow in Hin; [contradiction|]. unfold fronts_of. now rewrite map_length. }
+    assert (Hnth : forall j e, nth_error log j = Some e -> nth j (fronts_of xq cstore log) [] = snd (fst e)).
+    { intros j e He. unfold fronts_of.
+      apply (map_nth_error (fun e => snd (fst e))) in He. now apply nth_error_nth. }
+    destruct (nth_error log k) as [[[r f] cs]|] eqn:Ek; [|apply nth_error_None in Ek; lia].
+    assert (Ef : front = f) by (unfold front; now rewrite (Hnth _ _ Ek)).
+    assert (Hsub : forall j x, In x (nth j (fronts_of xq cstore log) []) -> In x l) by (intros j x Hx; apply LCov; eauto).
+    assert (Hfinj : sid_inj front) by (apply (sid_inj_incl l); [intros x Hx; eapply Hsub; eauto|assumption]).
+    pose proof (loop_crowd _ _ _ _ _ _ Hl) as LC. rewrite Forall_forall in LC.
+    pose proof (LC _ (nth_error_In _ _ Ek)) as Hcs. simpl in Hcs. rewrite <- Ef in Hcs.
+    exists front, cs. repeat split; auto.
+    - intro Hb. pose proof (proj2 (RF _ _ (ann_In b H)) Hb) as Hrb. unfold rank in Hrb.
+      destruct (ann_rank log b Hl Han H) as [Hrb' _]. rewrite Hrb' in Hrb. now injection Hrb.
+    - intro Eb. apply RF; [now apply ann_In|]. unfold rank. destruct (ann_rank log b Hl Han H) as [Hrb' _].
+      now rewrite Hrb', Eb.
+    - intros x Hx. eapply Hsub; eauto.
+    - destruct (crowding_binds _ _ _ Hfinj Hcs (a_sol a) Hin) as [v Hv].
+      assert (Hco : crowd_of log (sid (a_sol a)) = Some v).
+      { apply (crowd_of_at log k r f cs _ v Ek Hv). intros j e Hj He.
+        pose proof (LC _ (nth_error_In _ _ He)) as Hce.
+        apply (crowding_unbound _ _ _ _ ltac:(apply (sid_inj_incl l); [intros x Hx; apply (Hsub j); now rewrite (Hnth _ _ He)|assumption]) Hce).
+        destruct (has_sid (sid (a_sol a)) (snd (fst e))) eqn:Hs; [|reflexivity]. exfalso.
+        apply has_sid_In in Hs. destruct Hs as [y [Hy Ey]]. rewrite <- (Hnth _ _ He) in Hy.
+        assert (y = a_sol a) by (apply Hinj; [eapply Hsub; eauto|now apply ann_In|assumption]). subst y.
+        assert (j = k) by (eapply LDis; eauto). lia. }
+      rewrite Hc in Hco. now injection Hco as ->.
+  Qed.
+
+  Corollary x_crowd_nonneg a : In a ann -> xnonneg (a_crowd a).
+  Proof.
+    intro Ha. destruct (x_crowd_front a Ha) as [front [cs [Hin [Hfi [_ [_ [Hcs Hg]]]]]]].
+    eapply crowding_nonneg; eauto.
+  Qed.
+End XSort.
